@@ -292,7 +292,11 @@ def check_cached_grammar_projection(ctx, rule: str, relpaths) -> int:
                 continue
             for c in [x for x in walk_local(fn) if isinstance(x, ast.Call) and isinstance(x.func, ast.Name) and x.func.id in cached]:
                 n += 1
-                whole = any(isinstance(a, ast.Name) and a.id in gparams for a in c.args) or any(isinstance(k.value, ast.Name) and k.value.id in gparams for k in c.keywords)
+                def is_whole(a):
+                    # the parameter itself, or a conversion of it (f(grammar)): the complete grammar is part of the key
+                    return (isinstance(a, ast.Name) and a.id in gparams) or (isinstance(a, ast.Call) and any(isinstance(x, ast.Name) and x.id in gparams for x in a.args))
+
+                whole = any(is_whole(a) for a in c.args) or any(is_whole(k.value) for k in c.keywords)
                 proj = [a for a in c.args if any(isinstance(y, ast.Name) and y.id in gparams for y in ast.walk(a)) and not (isinstance(a, ast.Name) and a.id in gparams)]
                 ctx.check(whole or not proj, rule, f"{rel}:{q}", f"{c.func.id}(...) keyed by the grammar it was asked about", site(c),
                           f"`{c.func.id}` is memoised per process (lru_cache) and is called with `{src(proj[0])[:40] if proj else ''}`, a projection of `{gparams[0]}`, but not with `{gparams[0]}` itself: "
